@@ -2,4 +2,6 @@
 hydro_lang::setup!();
 
 pub mod enc;
+pub mod adapt;
+pub mod family;
 pub mod hand;
